@@ -250,6 +250,7 @@ pub fn flush_has_work(connections: &[SrtlaConnection], now: u64) -> (r: bool)
                     assert(sel_idx < connections.len());
                     assert(connections[sel_idx as int].eligible(packet_time_ms));  // @ob C04.route.handle_srt_packet.every_routed_copy_goes_to_an_eligible_uplink
                     assert(config_snap.mode is Classic ==> Some(sel_idx) == sched_choice);  // @ob C10.route.handle_srt_packet.classic_mode_routes_every_packet_kind_by_the_reference_choice
+                    assert(!config_snap.stall_deselect ==> forall|i: int| 0 <= i < connections.len() ==> !(#[trigger] connections[i]).stall_gated && connections[i].stall_latched_since_ms == 0);  // @ob C12.route.handle_srt_packet.with_the_guard_off_no_flag_or_latch_is_left_when_the_packet_is_routed
                 }''', 'after', 'last'),     # the LAST occurrence: the registered-session path (the first one is pre-registration forwarding)
                ]))
     return u
